@@ -83,6 +83,7 @@ type WorkerStats struct {
 	Harness    []string          `json:"harness"`
 	Samples    []json.RawMessage `json:"samples"`
 	Seeds      []uint64          `json:"seeds"`
+	Known      map[string]uint64 `json:"known"`
 }
 
 type FoundViolation struct {
@@ -137,7 +138,7 @@ func execCase(t *testing.T, s *Scenario, c *Case, keep bool) Outcome {
 func runWorker(t *testing.T) {
 	warmup()
 	s := scenarioFor(t, *fProp)
-	st := &WorkerStats{Prop: s.Prop, Seed: *fSeed, Probes: map[string]uint64{}}
+	st := &WorkerStats{Prop: s.Prop, Seed: *fSeed, Probes: map[string]uint64{}, Known: map[string]uint64{}}
 	start := time.Now()
 	deadline := start.Add(*fBudget)
 	digests := map[uint64]bool{}
@@ -230,6 +231,9 @@ func (st *WorkerStats) accumulate(out *Outcome, c *Case, digests map[uint64]bool
 	st.SimNs += int64(out.Stats.SimTime)
 	for k, v := range out.Stats.Probes {
 		st.Probes[k] += v
+	}
+	for k, v := range out.Stats.Known {
+		st.Known[k] += v
 	}
 	if out.Stats.NonTrivial {
 		st.NonTrivial++
@@ -328,6 +332,33 @@ type knownFinding struct {
 	Commit   string `json:"commit,omitempty"`
 }
 
+var knownCache []knownFinding
+var knownLoaded bool
+
+// matchKnown returns the known (unrepaired) finding a violation corresponds to, if any.
+func matchKnown(prop string, v *Violation) *knownFinding {
+	if !knownLoaded {
+		knownCache = loadKnown()
+		knownLoaded = true
+	}
+	for i := range knownCache {
+		k := &knownCache[i]
+		if k.Kind != "known" || k.Rule != v.Rule || !v.HasProp(k.Property) {
+			continue
+		}
+		ok := true
+		for _, m := range strings.Split(k.Match, "&&") {
+			if !strings.Contains(v.Msg, strings.TrimSpace(m)) {
+				ok = false
+			}
+		}
+		if ok {
+			return k
+		}
+	}
+	return nil
+}
+
 func loadKnown() []knownFinding {
 	f, err := os.ReadFile(filepath.Join(*fVerifDir, "known_findings.jsonl"))
 	if err != nil {
@@ -385,7 +416,7 @@ func runOrchestrate(t *testing.T) {
 	}
 	wg.Wait()
 
-	agg := &WorkerStats{Prop: s.Prop, Seed: *fSeed, Probes: map[string]uint64{}}
+	agg := &WorkerStats{Prop: s.Prop, Seed: *fSeed, Probes: map[string]uint64{}, Known: map[string]uint64{}}
 	digests := map[uint64]bool{}
 	trouble := false
 	for i, r := range results {
@@ -405,6 +436,9 @@ func runOrchestrate(t *testing.T) {
 		agg.NonTrivial += r.st.NonTrivial
 		for k, v := range r.st.Probes {
 			agg.Probes[k] += v
+		}
+		for k, v := range r.st.Known {
+			agg.Known[k] += v
 		}
 		for _, d := range r.st.Digests {
 			digests[d] = true
@@ -430,7 +464,7 @@ func runOrchestrate(t *testing.T) {
 		}
 		matched := false
 		for _, k := range known {
-			if k.Kind == "known" && k.Property == s.Prop && k.Rule == v.Viol.Rule && strings.Contains(v.Viol.Msg, k.Match) {
+			if kk := matchKnown(s.Prop, &v.Viol); kk != nil && kk.What == k.What {
 				if !knownHit[k.What] {
 					fmt.Printf("KNOWN-FINDING: property=%s %s\n", s.Prop, k.What)
 					knownHit[k.What] = true
@@ -441,6 +475,12 @@ func runOrchestrate(t *testing.T) {
 		}
 		if !matched {
 			own = append(own, v)
+		}
+	}
+	for what, n := range agg.Known {
+		if !knownHit[what] {
+			fmt.Printf("KNOWN-FINDING: property=%s %s (hit %d times in this run)\n", s.Prop, what, n)
+			knownHit[what] = true
 		}
 	}
 	// confirm each own violation by replaying it in a fresh process
@@ -580,6 +620,8 @@ var expectedProbes = map[string][]string{
 	"C04": {},
 	"C05": {"compaction_done", "memtable_flushed"},
 	"C08": {"memtable_rotated", "crash_in_close", "recovered_unacked_commit"},
+	"C09": {"torn_wal_cut", "torn_vlog_cut", "torn_manifest_cut"},
+	"C10": {"fault:power_image_verified", "memtable_rotated"},
 	"C12": {"compact_L0_to_Lbase", "compact_L0_to_L0", "compact_Ln_to_Ln1", "compact_Lmax_to_Lmax", "compact_split_subcompactions", "l0_stall_poll"},
 	"C13": {"compaction_done"},
 	"C33": {"expiry_crossed", "compaction_done"},
